@@ -126,7 +126,25 @@ def run(tier, seed):
           if kind in ('int', 'internal'):
             chosen = [int(v) for v in chosen]
           add(sel.select(nm, chosen), depth + 1)
-    add(root, 1)
+    if it % 6 == 4:
+      # the same parameter name in several subtrees (one optimiser per model, a learning rate only under some of them)
+      rep.count('space_same_name_in_subtrees')
+      root.add_categorical_param('model', ['dnn', 'linear', 'tree'])
+      declared['model'] = ('str', ['dnn', 'linear', 'tree'])
+      declared['opt'] = ('str', ['adam', 'sgd'])
+      declared['lr'] = ('float', [0.0, 0.25, 1.0])
+      declared['depth'] = ('internal', [1.0, 2.0, 3.0, 4.0])
+      with_lr = r.sample(['dnn', 'linear', 'tree'], r.randrange(1, 3))
+      for mv in ['dnn', 'linear', 'tree']:
+        if mv == 'tree' and r.random() < 0.5:
+          root.select('model', [mv]).add_int_param('depth', 1, 4)
+          continue
+        sub = root.select('model', [mv])
+        sub.add_categorical_param('opt', ['adam', 'sgd'])
+        if mv in with_lr:
+          sub.select('opt', [r.choice(['adam', 'sgd'])]).add_float_param('lr', 0.0, 1.0)
+    else:
+      add(root, 1)
     space = sc.search_space
     # choose a trial: walk the space, pick values for active parameters
     params = {}
@@ -140,6 +158,8 @@ def run(tier, seed):
         walk(kids)
     walk(space.parameters)
     mode = r.choice(['ok', 'ok', 'ok', 'unknown', 'inactive', 'missing'])
+    if it % 6 == 4 and r.random() < 0.6:
+      mode = 'inactive'
     inactive_name = None
     if mode == 'unknown':
       params['zzz'] = 1.0
